@@ -23,7 +23,7 @@ META = {
     },
     "C18": {
         "technique": "stateless model checking of the implementation: all interleavings of FirstSuccess + errgroup (both instrumented from the current source) for every outcome vector and concurrency limit, n<=3 unbounded, n=4..5 preemption-bounded",
-        "text": "For every outcome vector in {success, not-found, error}^n, every concurrency limit in {-1,0,1..n} and every completion order / interleaving (n<=3: all; n=4,5 in thorough: preemption bound 3/2) the real FirstSuccess returns a value some job produced whenever one succeeded, otherwise exactly the n job errors, and terminates. Completion orders are a schedule quantifier, so exhaustive interleaving exploration is the matching level.",
+        "text": "For every outcome vector in {success, not-found, error, error wrapping a context error}^n (job i's hit is the value i, so job 0's hit is the zero value of T), every concurrency limit in {-1,0,1..n} and every completion order / interleaving (n<=3: all; n=4,5 in thorough: preemption bound 3/2) the real FirstSuccess returns a value some job produced whenever one succeeded, otherwise exactly the n job errors, and terminates. Completion orders are a schedule quantifier, so exhaustive interleaving exploration is the matching level.",
         "design_ref": "§4 C18, §3.3",
         "note": "Trusted: channel/select/WaitGroup models (conformance-tested); job bodies are one scheduling point plus a preset outcome; the request context stays live (as the statement says).",
     },
